@@ -1,6 +1,7 @@
 package checks
 
 import (
+	"bytes"
 	"fmt"
 	"strings"
 
@@ -13,6 +14,7 @@ import (
 	mh "github.com/multiformats/go-multihash"
 
 	"verif/sim/gen"
+	"verif/sim/sched"
 	"verif/sim/source"
 	"verif/sim/store"
 	"verif/sim/tape"
@@ -50,7 +52,7 @@ func (c10) Runs(t Tier) int {
 }
 func (c10) RecordWidths() map[string]int { return nil }
 func (c10) RequiredProbes() []string {
-	return []string{"default-chunker", "default-chunker-at-block-boundary", "mixed-link-lengths", "non-murmur-hasher", "file-fragmentation", "rabin-chunker", "dir-permutation", "sharded-permutation", "quick-builder", "distinct-commit-orders>=2", "nested-shards", "straddles-shard-threshold", "multi-level-file"}
+	return []string{"concurrent-builders", "default-chunker", "default-chunker-at-block-boundary", "mixed-link-lengths", "non-murmur-hasher", "file-fragmentation", "rabin-chunker", "dir-permutation", "sharded-permutation", "quick-builder", "distinct-commit-orders>=2", "nested-shards", "straddles-shard-threshold", "multi-level-file"}
 }
 
 type c10Scenario struct {
@@ -93,7 +95,10 @@ func runBuild(width int, f func(ls *ipld.LinkSystem) (ipld.Link, uint64, error))
 func (c10) Run(ts *tape.Set, tier Tier) *Result {
 	res := &Result{}
 	shape := ts.T("shape")
-	kind := shape.Pick(3, 2, 3, 2) // file, plain dir, sharded dir, quick builder
+	kind := shape.Pick(3, 2, 3, 2, 2) // file, plain dir, sharded dir, quick builder, concurrent builders
+	if kind == 4 {
+		return c10Concurrent(ts, tier, res)
+	}
 	sc := &c10Scenario{}
 	res.Scenario = sc
 	type named struct {
@@ -351,6 +356,119 @@ func (c10) Run(ts *tape.Set, tier Tier) *Result {
 	}
 	sig = fnvMix(sig, uint64(kind), uint64(bc), tape.HashString(sc.Spec)) // commit-order count is observed map order: not part of the signature
 	res.Sig = sig
+	return res
+}
+
+// c10Concurrent: two or three builds run as SimSched tasks through ONE link
+// system and store, parked at every write open and commit and released in a
+// tape-chosen order. The result of each must be what the same build returns
+// when it runs alone: the link and size are a function of the logical input,
+// not of what else the process is building at the time.
+func c10Concurrent(ts *tape.Set, tier Tier, res *Result) *Result {
+	shape := ts.T("shape")
+	sc := &c10Scenario{Kind: "concurrent builders"}
+	res.Scenario = sc
+	nTasks := 2 + shape.Intn(2)
+	width := []int{2, 3, 174}[shape.Intn(3)]
+	type job struct {
+		name string
+		run  func(ls *ipld.LinkSystem) (ipld.Link, uint64, error)
+	}
+	var jobs []job
+	for t := 0; t < nTasks; t++ {
+		if shape.Intn(3) == 2 {
+			dspec := gen.DrawDirSpec(shape, gen.DirOpts{MaxN: 60, OnlyBuilder: true})
+			names := gen.Names(dspec)
+			ents := map[string]cid.Cid{}
+			for _, n := range names {
+				ents[n] = gen.EntryCid(n, 0)
+			}
+			lnks, _ := gen.PBLinks(names, ents, nil)
+			jobs = append(jobs, job{"sharded dir " + dspec.String(), func(ls *ipld.LinkSystem) (ipld.Link, uint64, error) {
+				return builder.BuildUnixFSShardedDirectory(dspec.Fanout, mh.MURMUR3X64_64, lnks, ls)
+			}})
+			continue
+		}
+		spec := gen.DrawFileSpec(shape, gen.FileOpts{MaxSize: 2 << 10, OnlyBuilder: true})
+		spec.Width = width
+		content := gen.Content(spec)
+		jobs = append(jobs, job{"file " + spec.String(), func(ls *ipld.LinkSystem) (ipld.Link, uint64, error) {
+			return builder.BuildUnixFSFile(bytes.NewReader(content), spec.Chunker, ls)
+		}})
+	}
+	for _, j := range jobs {
+		sc.Builds = append(sc.Builds, j.name)
+	}
+	res.probe("concurrent-builders")
+	// each alone
+	var alone []buildResult
+	for _, j := range jobs {
+		br, panicked, site, pmsg, ev := runBuild(width, j.run)
+		res.Execs++
+		res.Events += ev
+		if panicked {
+			res.Violation = &Violation{Class: "c10/panic@" + site, Msg: j.name + " panicked: " + pmsg}
+			return res
+		}
+		if br.err != nil {
+			res.Skipped, res.SkipReason = true, "builder fails on this input: "+br.err.Error()
+			return res
+		}
+		alone = append(alone, br)
+	}
+	// together
+	st := store.New()
+	w := world.New(st, false)
+	schedTape := ts.T("sched")
+	sch := sched.New(func(n int) int { return schedTape.Intn(n) })
+	st.Yield = sch.Yield
+	got := make([]buildResult, len(jobs))
+	old := builder.DefaultLinksPerBlock
+	builder.DefaultLinksPerBlock = width
+	for i, j := range jobs {
+		i, j := i, j
+		sch.Go(func() {
+			l, sz, err := j.run(&w.LS)
+			got[i].err, got[i].size = err, sz
+			if l != nil {
+				got[i].link = l.String()
+			}
+		})
+	}
+	panics := sch.Run()
+	builder.DefaultLinksPerBlock = old
+	res.Execs++
+	res.Events += len(st.Log)
+	var sig uint64
+	inter := false
+	for i, id := range sch.Trace {
+		sig = fnvMix(sig, uint64(id))
+		if i >= 2 && sch.Trace[i] == sch.Trace[i-2] && sch.Trace[i] != sch.Trace[i-1] {
+			inter = true
+		}
+	}
+	res.Sig = fnvMix(sig, uint64(len(jobs)))
+	res.NonTrivial = inter
+	for i, p := range panics {
+		if p != nil {
+			res.Violation = &Violation{Class: "c10/panic-in-concurrent-build", Msg: fmt.Sprintf("%s panicked while built concurrently: %v", jobs[i].name, p)}
+			return res
+		}
+	}
+	for i := range jobs {
+		if got[i].err != nil {
+			res.Violation = &Violation{Class: "c10/schedule-dependent-failure/concurrent", Msg: fmt.Sprintf("%s succeeds alone but fails when built concurrently with other builds on the same link system: %v", jobs[i].name, got[i].err)}
+			return res
+		}
+		if got[i].link != alone[i].link {
+			res.Violation = &Violation{Class: "c10/link-differs/concurrent", Msg: fmt.Sprintf("%s returns link %s alone and %s when other builds run interleaved on the same link system (schedule %v)", jobs[i].name, alone[i].link, got[i].link, sch.Trace)}
+			return res
+		}
+		if got[i].size != alone[i].size {
+			res.Violation = &Violation{Class: "c10/size-differs/concurrent", Msg: fmt.Sprintf("%s returns size %d alone and %d when other builds run interleaved on the same link system (schedule %v)", jobs[i].name, alone[i].size, got[i].size, sch.Trace)}
+			return res
+		}
+	}
 	return res
 }
 
